@@ -278,9 +278,22 @@ class EvolveAppTask(BaseEvolutionTask):
                         task_sql = task_info.get('sql')
 
                         if task_sql:
-                            task.execute(sql_executor=sql_executor,
-                                         sql=task_sql,
-                                         **kwargs)
+                            # Only announce the evolutions applied in this
+                            # batch. A task's evolutions may be split
+                            # across several batches (when a migration has
+                            # to be applied in between).
+                            batch_labels = set(
+                                task_info.get('evolutions', []))
+
+                            task.execute(
+                                sql_executor=sql_executor,
+                                sql=task_sql,
+                                evolutions=[
+                                    evolution
+                                    for evolution in task.new_evolutions
+                                    if evolution.label in batch_labels
+                                ],
+                                **kwargs)
             elif batch_type == UpgradeMethod.MIGRATIONS:
                 assert migrating
 
